@@ -126,6 +126,15 @@ def _tag(r, *vs):
 _PURE_METHODS = {'items', 'keys', 'values', 'get', 'startswith', 'endswith', 'lower', 'upper', 'strip', 'split', 'index', 'count'}
 
 
+class OptInt(SInt):
+    """an integer or None, decided by a symbolic condition (`x is None` is answered symbolically; arithmetic treats it as the integer)"""
+    __slots__ = ('is_none',)
+
+    def __init__(self, e, isnone):
+        super().__init__(e)
+        self.is_none = SBool(isnone)
+
+
 class UserFn:
     """a function of the code under verification that is inlined at its call sites (helper without contract, nested def).
     A nested function reads the variables of its defining function as they are at the call (it must be called from there)."""
@@ -1048,6 +1057,17 @@ class Exec:
                     pass
             if all(isinstance(v, tuple) for v in vals) and len({len(v) for v in vals}) == 1:
                 return tuple(merge_val([v[i] for v in vals]) for i in range(len(vals[0])))
+            if any(v is None for v in vals) and all(v is None or isinstance(v, SInt) or (_conc_int(v) is not None and not isinstance(v, bool)) for v in vals):
+                # optional integer (e.g. a helper that returns a primitive code or None): value + symbolic None-ness
+                e = z3.IntVal(-1)
+                isnone = z3.BoolVal(True)
+                for cnd, v in zip(reversed(conds), reversed(vals)):
+                    if v is None:
+                        isnone = z3.If(cnd, z3.BoolVal(True), isnone)
+                    else:
+                        e = z3.If(cnd, to_int(v), e)
+                        isnone = z3.If(cnd, z3.BoolVal(False), isnone)
+                return OptInt(e, isnone)
             r = vals[-1]
             for cnd, v in zip(reversed(conds[:-1]), reversed(vals[:-1])):
                 if isinstance(v, Model) or isinstance(r, Model):
